@@ -1247,7 +1247,7 @@ def commute(cls_short, m, slot, writers):
              ("from-join", qc.from_(t).join(u).on(t.id == u.id).select(t.id))]
     cands, _kw = arg_candidates()
     cands = [(), ("total",), (fn.Sum(u.x).as_("total"),), ("n1",), (Table("abc", alias="x1"),), ("n1", 1), (t.foo,), (t.foo == 1,), (outer.k == t.k,), (t,), (u,), (1,),
-             (pk.Query.from_(w_).select(w_.x),), (t.foo, 1), ("n1", 1)] + cands
+             (pk.Query.from_(w_).select(w_.x),), (t.foo, 1), ("n1", 1), (u.foo,)] + cands
 
     def outcome(thunk):
         try:
@@ -1257,18 +1257,29 @@ def commute(cls_short, m, slot, writers):
             return ("ok", str(q))
         except Exception as e:
             return ("raise", type(e).__name__)
-    small = cands[:15]
+    small = cands[:16]
+    # the two calls may leave the builder incomplete (it renders ''): the same completion is applied after both
+    # orders, so that a difference in the state (e.g. the foreign-table flag) becomes a difference in the text
+    completions = [("", lambda q: q),
+                   (".set('y', 2)", lambda q: q.set("y", 2)),
+                   (".where(t.foo == 1).set('y', 2)", lambda q: q.where(t.foo == 1).set("y", 2)),
+                   (".select('z')", lambda q: q.select("z")),
+                   (".insert(1)", lambda q: q.insert(1)),
+                   (".on_conflict('id').insert(1)", lambda q: q.on_conflict("id").insert(1))]
     for wname in writers:
         for blabel, base in bases:
             if not hasattr(base, wname) or not hasattr(base, m):
                 continue
             for a1 in small:
                 for a2 in small:
-                    o1 = outcome(lambda: getattr(getattr(base, m)(*a1), wname)(*a2))
-                    o2 = outcome(lambda: getattr(getattr(base, wname)(*a2), m)(*a1))
-                    if o1 != o2 and not (o1[0] == o2[0] == "raise"):
-                        return (f"on the {blabel} builder, .{m}{a1!r}.{wname}{a2!r} gives {o1[1]!r} but "
-                                f".{wname}{a2!r}.{m}{a1!r} gives {o2[1]!r}")
+                    for clabel, comp in completions:
+                        o1 = outcome(lambda: comp(getattr(getattr(base, m)(*a1), wname)(*a2)))
+                        o2 = outcome(lambda: comp(getattr(getattr(base, wname)(*a2), m)(*a1)))
+                        if o1 != o2 and not (o1[0] == o2[0] == "raise"):
+                            return (f"on the {blabel} builder, .{m}{a1!r}.{wname}{a2!r}{clabel} gives {o1[1]!r} but "
+                                    f".{wname}{a2!r}.{m}{a1!r}{clabel} gives {o2[1]!r}")
+                        if o1[0] == "raise" and not clabel:
+                            break       # both orders reject the two calls: no completion applies
     return None
 
 
